@@ -639,6 +639,45 @@ def c_gff_edit_dir(rng):
     return {"kind": "gff_edit", "ops": ops, "spec": {"o": "gff_hist", "hist": hist}}
 
 
+def c_gff_fasta(rng):
+    """a GFF text with directives, comments and (mostly) a '##FASTA' section; then copy() and edits"""
+    safe = _safe_codes()
+    ent = lambda i: "\t".join(["chr1", "src", rng.choice(["gene", "CDS"]), str(1 + i), str(9 + i), ".", "+", ".", f"ID=e{i}"])
+    lines = ["##gff-version 3"]
+    n = rng.randint(0, 3)
+    for i in range(n):
+        if rng.random() < 0.3:
+            lines.append(rng.choice(["##sequence-region chr1 1 99", "#comment", ""]))
+        lines.append(ent(i))
+    has_fasta = rng.random() < 0.75
+    if has_fasta:
+        lines += ["##FASTA", ">chr1", "ACGTACGTAC", "GGTT"] + ([ent(7)] if rng.random() < 0.3 else [])
+    ops, hist = [f"gff_read {el(lines)}"], []
+    for _ in range(rng.randint(1, 5)):
+        r = rng.random()
+        e = g_gff_entry(rng)
+        if r < 0.3:
+            ops.append("gff_copy"); hist.append(["copy"])
+        elif r < 0.5:
+            ops.append(f"gff_append {safe} {enc_entry(e)}"); hist.append(["append", e])
+            n += 0 if has_fasta else 1
+        elif r < 0.65:
+            i = rng.choice([n, 0, -1])
+            ops.append(f"gff_insert {i} {safe} {enc_entry(e)}"); hist.append(["insert", i, e])
+            if not (has_fasta and i == n) and -n <= i <= n:
+                n += 1
+        elif r < 0.75 and n:
+            i = rng.randint(0, n - 1)
+            ops.append(f"gff_set {i} {safe} {enc_entry(e)}"); hist.append(["set", i, e])
+        elif r < 0.85 and n:
+            i = rng.randint(0, n - 1)
+            ops.append(f"gff_del {i}"); hist.append(["del", i]); n -= 1
+        else:
+            ops.append(f"gff_directive {es('note')} {es('note x')}"); hist.append(["directive", "note", ["x"]])
+    ops += ["gff_get -1", "gff_reread"]
+    return {"kind": "gff_edit", "ops": ops, "spec": {"o": "gff_hist", "start": lines, "hist": hist}}
+
+
 def c_gff_text(rng):
     lines = []
     for _ in range(rng.randint(0, 7)):
@@ -771,7 +810,8 @@ def c_seq_conv(rng):
         kind = rng.choice(["nuc", "amb", "prot"]) if fmt == "fasta" else rng.choice(["nuc", "amb"])
         s = g_seq(rng, {"nuc": NUC, "amb": AMB, "prot": PROT}[kind], nonempty=True)
         ents.append([(f"s{i} " + g_header(rng)).strip(), kind, s])
-    return {"kind": "seq_conv_rt", "spec": {"o": "seq_conv", "fmt": fmt, "entries": ents, "cpl": rng.choice([None, 1, 4, 80]), "off": rng.choice(["Sanger", "Solexa", "Illumina-1.3", "Illumina-1.5", "Illumina-1.8"]), "seed": rng.randint(0, 10**6)}}
+    ents = [[h, k, (x + "T" if k == "prot" and rng.random() < 0.7 else x)] for h, k, x in ents]     # threonine must stay T also with as_rna
+    return {"kind": "seq_conv_rt", "spec": {"o": "seq_conv", "fmt": fmt, "entries": ents, "as_rna": rng.random() < 0.5, "cpl": rng.choice([None, 1, 4, 80]), "off": rng.choice(["Sanger", "Solexa", "Illumina-1.3", "Illumina-1.5", "Illumina-1.8"]), "seed": rng.randint(0, 10**6)}}
 
 
 # ---- less-used entry points of the anchored modules (oracle only)
@@ -781,8 +821,11 @@ def c_api(rng):
     if sub == "multifile":
         recs = []
         for i in range(rng.choice([1, 2, 3, 4])):
-            recs.append({"locus": f"REC{i}", "definition": f"record {i} " + g_header(rng).replace("/", "_"),
-                         "seq": g_seq(rng, NUC, nonempty=True), "extra": rng.random() < 0.5})
+            recs.append({"locus": f"REC{i}", "definition": f"record {i} " + rng.choice([g_header(rng), "see https://example.org//x", "\\\\host//share", "a//b"]),
+                         "seq": g_seq(rng, NUC, nonempty=True), "extra": rng.random() < 0.5,
+                         "comment": rng.choice([None, ["http://x.org/a", "//", "tail"], ["x // y"], ["//"]]),
+                         "features": [dict(g_gb_feat(rng), qual={"note": rng.choice(["see https://example.org/a//b", "plain", "//"]), "db_xref": "x//y"})
+                                      for _ in range(rng.choice([0, 1, 2]))]})
         spec["records"] = recs
     elif sub == "alignment":
         n = rng.choice([2, 2, 3, 4]); ln = rng.choice([1, 4, 9, 80, 81])
@@ -812,7 +855,7 @@ def c_api(rng):
 
 GENS = [(c_api, 10), (c_fasta_rt, 8), (c_fasta_edit, 8), (c_fasta_text, 4), (c_fastq_rt, 8), (c_fastq_edit, 6), (c_fastq_text, 4),
         (c_fastq_offset, 2), (c_loc, 10), (c_loc_parse, 6), (c_gff_quote, 4), (c_gff_line, 8), (c_gff_parse, 3),
-        (c_gff_edit, 8), (c_gff_edit_dir, 5), (c_gff_group, 5), (c_gff_text, 3), (c_gbf_rt, 8), (c_gbf_print, 4), (c_gbf_parse, 6), (c_org_print, 4), (c_org_read, 3), (c_gb_edit, 8), (c_gb_text, 3), (c_wrap, 2), (c_genbank, 10), (c_gff_annot, 5),
+        (c_gff_edit, 8), (c_gff_edit_dir, 5), (c_gff_fasta, 5), (c_gff_group, 5), (c_gff_text, 3), (c_gbf_rt, 8), (c_gbf_print, 4), (c_gbf_parse, 6), (c_org_print, 4), (c_org_read, 3), (c_gb_edit, 8), (c_gb_text, 3), (c_wrap, 2), (c_genbank, 10), (c_gff_annot, 5),
         (c_seq_conv, 4)]
 
 
@@ -1334,8 +1377,31 @@ def _alias_check(fmt, f, cls, read_args=(), inputs=()):
         return [(f"C12/{fmt}/copy-inconsistent", f"copy() of a file object: {type(e).__name__}: {e}")]
     if snap_c != before:
         return [(f"C12/{fmt}/copy-inconsistent", f"copy() reports {str(snap_c[0])[:160]} but the original {str(before[0])[:160]} (same text: {snap_c[-1] == before[-1]})")]
+    def outcome(obj):
+        """an object and a fresh object read from the same text must react alike to the next operation"""
+        try:
+            if fmt == "gff":
+                obj.append("opseq", "x", "t", 1, 2, None, None, None, {"ID": "next-op"})
+            elif fmt == "genbank":
+                obj.append("NEXTOP", ["x"])
+            elif fmt == "fasta":
+                obj["next-op"] = "ACGT"
+            else:
+                return "skip"
+        except Exception as e:  # noqa: BLE001
+            return "raises " + type(e).__name__
+        return _snap(fmt, obj)
+    if f.lines:
+        try:
+            o_copy, o_fresh = outcome(f.copy()), outcome(cls.read(io.StringIO(before[-1] + "\n"), *read_args))
+        except Exception as e:  # noqa: BLE001
+            return [(f"C12/{fmt}/copy-inconsistent", f"{type(e).__name__}: {e}")]
+        if o_copy != o_fresh:
+            return [(f"C12/{fmt}/copy-inconsistent", f"the next edit on a copy gives {str(o_copy)[:140]} but on a file read from the same text {str(o_fresh)[:140]}")]
     try:
         if fmt == "gff":
+            if getattr(c, "_has_fasta", False):
+                return []          # appending is refused for files with FASTA data (checked above)
             c.append("copyseq", "x", "t", 1, 2, None, None, None, {"ID": "only-in-copy"})
             del c[0]
         elif fmt == "genbank":
@@ -1676,6 +1742,10 @@ def _o_gff_hist(spec):
     f = gff.GFFFile()
     ref = []
     v = []
+    if spec.get("start") is not None:
+        # history on a file read from a text (directives, comments, a '##FASTA' section with sequence data)
+        f = gff.GFFFile.read(io.StringIO("\n".join(spec["start"]) + "\n"))
+        ref = [f[i] for i in range(len(f))]
     for step in spec["hist"]:
         try:
             before_step = _snap("gff", f)
@@ -1694,6 +1764,8 @@ def _o_gff_hist(spec):
                 del f[step[1]]; del ref[step[1]]
             elif step[0] == "directive":
                 f.append_directive(step[1], *step[2])
+            elif step[0] == "copy":
+                f = f.copy()
         except (IndexError, NotImplementedError, ValueError):
             if _snap("gff", f) != before_step:
                 return [("C12/gff/refused-call-changed-object", f"{step[0]} {step[1] if step[0] != 'append' else ''} was rejected but the file changed")]
@@ -1790,6 +1862,13 @@ def _o_quote(spec):
 
 
 def _o_seq_conv(spec):
+    try:
+        return _o_seq_conv_inner(spec)
+    except Exception as e:  # noqa: BLE001
+        return [(f"C12/{spec['fmt']}/sequence-object-roundtrip/raises/{type(e).__name__}", f"as_rna={spec.get('as_rna')}: {type(e).__name__}: {e}")]
+
+
+def _o_seq_conv_inner(spec):
     import random
     import numpy as np
     from biotite.sequence import NucleotideSequence, ProteinSequence
@@ -1798,7 +1877,19 @@ def _o_seq_conv(spec):
         from biotite.sequence.io import fasta
         f = fasta.FastaFile(chars_per_line=spec["cpl"] or 80)
         seqs = {h: (ProteinSequence(s) if k == "prot" else NucleotideSequence(s)) for h, k, s in spec["entries"]}
-        fasta.set_sequences(f, seqs)
+        as_rna = bool(spec.get("as_rna"))
+        fasta.set_sequences(f, seqs, as_rna=as_rna)
+        if as_rna:
+            # the same through the single-sequence entry point, and the text must hold U only for nucleotides
+            f2 = fasta.FastaFile()
+            for h, sq in seqs.items():
+                fasta.set_sequence(f2, sq, header=h, as_rna=True)
+            if f2.lines != [l for l in fasta.FastaFile.read(io.StringIO(str(f) + "\n")).lines] and dict(f2.items()) != dict(f.items()):
+                v.append(("C12/fasta/as_rna-entry-points-differ", "set_sequence and set_sequences write different text"))
+            for h, k, s in spec["entries"]:
+                exp = s.replace("T", "U") if k != "prot" else s
+                if f[_norm(h)] != exp:
+                    v.append(("C12/fasta/as_rna-changes-symbols", f"{h!r} ({k}): {s[:30]!r} written as {f[_norm(h)][:30]!r}"))
         g = _reread(fasta.FastaFile, f, 80)
         for h, k, s in spec["entries"]:
             back = fasta.get_sequence(g, h, seq_type=ProteinSequence if k == "prot" else NucleotideSequence)
@@ -1813,7 +1904,7 @@ def _o_seq_conv(spec):
         off = _OFFSETS[spec["off"]]
         f = fastq.FastqFile(offset=spec["off"], chars_per_line=spec["cpl"])
         d = {h: (NucleotideSequence(s), np.array([rnd.randint(33 - off, 126 - off) for _ in s])) for h, _, s in spec["entries"]}
-        fastq.set_sequences(f, d)
+        fastq.set_sequences(f, d, as_rna=bool(spec.get("as_rna")))
         g = fastq.get_sequences(_reread(fastq.FastqFile, f, spec["off"]))
         if list(g.keys()) != list(d.keys()):
             v.append(("C12/fastq/order", f"{list(g.keys())}"))
@@ -1836,6 +1927,16 @@ def _o_origin(spec):
 
 
 def _o_api(spec):
+    """an exception escaping one of these round trips is a failure of that round trip, with its own key"""
+    try:
+        return _o_api_inner(spec)
+    except Exception as e:  # noqa: BLE001
+        key = {"multifile": "C12/genbank/multifile-records", "alignment": "C12/fasta/alignment-roundtrip", "metadata": "C12/genbank/metadata-roundtrip",
+               "general": "C12/general/save-load-sequence", "path_io": "C12/textfile/path-vs-object"}.get(spec["sub"], "C12/api/" + spec["sub"])
+        return [(key + "/raises/" + type(e).__name__, f"{spec['sub']}: {type(e).__name__}: {e}")]
+
+
+def _o_api_inner(spec):
     import pathlib
     import random
     import tempfile
@@ -1854,7 +1955,11 @@ def _o_api(spec):
             gb.set_locus(f, r["locus"], len(r["seq"]))
             f.set_field("DEFINITION", [r["definition"]])
             if r["extra"]:
-                f.set_field("COMMENT", ["a", "b"], {"sub": ["c"]})
+                f.set_field("KEYWORDS", ["a", "b"], {"sub": ["c"]})
+            if r.get("comment"):
+                f.set_field("COMMENT", r["comment"])
+            if r.get("features"):
+                gb.set_annotation(f, _mkannot(r["features"]))
             gb.set_sequence(f, NucleotideSequence(r["seq"]))
             files.append(f)
             text += f.lines
@@ -1866,6 +1971,10 @@ def _o_api(spec):
             v.append(("C12/genbank/multifile-records", "fields of the records differ"))
         elif [(gb.get_definition(g), str(gb.get_sequence(g)), gb.get_raw_sequence(g)) for g in got] != [(r["definition"].strip(), r["seq"], r["seq"].lower()) for r in spec["records"]]:
             v.append(("C12/genbank/multifile-records", "definition / sequence of the records differ"))
+        else:
+            for g, r in zip(got, spec["records"]):
+                if r.get("features") and gb.get_annotation(g) != _mkannot(r["features"]):
+                    v.append(("C12/genbank/multifile-records", f"annotation of record {r['locus']} differs"))
         return v
     if sub == "alignment":
         from biotite.sequence.align import Alignment
